@@ -1,11 +1,138 @@
 import TdVerif.Sexp
+import TdVerif.Model.C13Module
 
 namespace TdVerif.Drive
-open TdVerif Sexp
+open TdVerif Sexp TdVerif.C13
 
+namespace C13IO
+
+/-- `(name id p|t)` or `(name none)` -/
+def optEntry? : Sexp → Option (Name × Option Tn)
+  | .list [.atom n, .atom "none"] => some (n, none)
+  | .list [.atom n, i, .atom k] => do
+      let i ← asNat? i
+      pure (n, some ⟨i, k == "p"⟩)
+  | _ => none
+
+def entry? (s : Sexp) : Option (Name × Tn) := do
+  let (n, t) ← optEntry? s
+  let t ← t
+  pure (n, t)
+
+def kid? : Sexp → Option (Name × Option MId)
+  | .list [.atom n, .atom "none"] => some (n, none)
+  | .list [.atom n, i] => do pure (n, some (← asNat? i))
+  | _ => none
+
+/-- `(mod (params …) (buffers …) (plain …) (kids …))` -/
+def mod? : Sexp → Option Mod
+  | .list [.atom "mod", .list (.atom "params" :: ps), .list (.atom "buffers" :: bs),
+           .list (.atom "plain" :: ds), .list (.atom "kids" :: ks)] => do
+      pure { params := ← ps.mapM optEntry?, buffers := ← bs.mapM optEntry?,
+             plain := ← ds.mapM entry?, kids := ← ks.mapM kid? }
+  | _ => none
+
+def heap? : Sexp → Option (List Mod)
+  | .list (.atom "mods" :: ms) => ms.mapM mod?
+  | _ => none
+
+def toHeap (ms : List Mod) : Heap := fun c => ms.getD c {}
+
+mutual
+partial def tree? : Sexp → Option PTree
+  | .list [.atom "leaf", i, .atom k] => do pure (.leaf ⟨← asNat? i, k == "p"⟩)
+  | .list (.atom "node" :: es) => do pure (.node (← es.mapM ent?))
+  | _ => none
+partial def ent? : Sexp → Option (Name × PTree)
+  | .list [.atom n, t] => do pure (n, ← tree? t)
+  | _ => none
+end
+
+/-- `(td (name tree) …)` -/
+def td? : Sexp → Option (List (Name × PTree))
+  | .list (.atom "td" :: es) => es.mapM ent?
+  | _ => none
+
+partial def stmt? : Sexp → Option Stmt
+  | .atom "nop" => some .nop
+  | .atom "raise" => some .raise
+  | .list (.atom "block" :: p :: m :: body) => do
+      pure (.block (← td? p) (← asNat? m) (← body.mapM stmt?))
+  | .list (.atom "try" :: body) => do pure (.tryExcept (← body.mapM stmt?))
+  | _ => none
+
+def tnSexp (t : Tn) : List Sexp := [ofNat t.id, .atom (if t.isParam then "p" else "t")]
+
+def optEntrySexp : Name × Option Tn → Sexp
+  | (n, none) => .list [.atom n, .atom "none"]
+  | (n, some t) => .list (.atom n :: tnSexp t)
+
+def modSexp (md : Mod) : Sexp :=
+  tagged "mod" [tagged "params" (md.params.map optEntrySexp), tagged "buffers" (md.buffers.map optEntrySexp),
+    tagged "plain" (md.plain.map (fun e => .list (.atom e.1 :: tnSexp e.2)))]
+
+def heapSexp (h : Heap) (n : Nat) : Sexp := tagged "mods" ((List.range n).map (fun c => modSexp (h c)))
+
+mutual
+partial def treeSexp : PTree → Sexp
+  | .leaf t => tagged "leaf" (tnSexp t)
+  | .node es => tagged "node" (es.map entSexp)
+partial def entSexp : Name × PTree → Sexp
+  | (n, t) => .list [.atom n, treeSexp t]
+end
+
+def tdSexp (es : List (Name × PTree)) : Sexp := tagged "td" (es.map entSexp)
+
+def errSexp : Err → Sexp
+  | .key => .atom "key" | .type => .atom "type" | .cycle => .atom "cycle" | .attr => .atom "attr" | .fuel => .atom "fuel"
+
+def statusSexp : Status → Sexp
+  | .normal => .atom "normal" | .raised => .atom "raised" | .entryFailed => .atom "entry-failed"
+  | .exitFailed => .atom "exit-failed"
+
+def swapAns (n : Nat) : Except (Err × Heap) (Heap × List (Name × PTree)) → Sexp
+  | .ok (h, s) => tagged "ok" [heapSexp h n, tdSexp s]
+  | .error (e, h) => tagged "err" [errSexp e, heapSexp h n]
+
+def execAns (n : Nat) (r : State × Status) : Sexp :=
+  .list [statusSexp r.2, heapSexp r.1.heap n, ofNats (r.1.tds.map (fun td => td.queue.length))]
+
+end C13IO
+
+open C13IO in
 /-- line-protocol handler for C13: commands are named `c13.<something>` -/
 def handleC13 (cmd : String) (args : List Sexp) : Option Sexp :=
   match cmd, args with
+  | "c13.from_module", [hp, root] => do
+      let ms ← heap? hp; let root ← asNat? root
+      match fromModule (toHeap ms) (ms.length + 1) root with
+      | .ok none => pure (tagged "ok" [.atom "none"])
+      | .ok (some t) => pure (tagged "ok" [tdSexp t])
+      | .error e => pure (tagged "err" [errSexp e])
+  | "c13.swap", [hp, root, p] => do
+      let ms ← heap? hp; let root ← asNat? root; let p ← td? p
+      pure (swapAns ms.length (swap (toHeap ms) root p))
+  | "c13.swap_old", [hp, root, p] => do
+      let ms ← heap? hp; let root ← asNat? root; let p ← td? p
+      pure (swapAns ms.length (swapOld (toHeap ms) root p))
+  | "c13.roundtrip", [hp, root, p] => do
+      -- to_module, then the swap back with swap_dest = p (what a with-block does on exit)
+      let ms ← heap? hp; let root ← asNat? root; let p ← td? p
+      match swap (toHeap ms) root p with
+      | .error (e, h) => pure (tagged "err" [errSexp e, heapSexp h ms.length])
+      | .ok (h1, s) =>
+        match swap h1 root s with
+        | .error (e, h) => pure (tagged "err2" [errSexp e, heapSexp h ms.length])
+        | .ok (h2, back) =>
+          match quickSet back p with
+          | .ok p' => pure (tagged "ok" [heapSexp h2 ms.length, tdSexp s, tdSexp p'])
+          | .error e => pure (tagged "err2" [errSexp e, heapSexp h2 ms.length])
+  | "c13.exec", [hp, .list prog] => do
+      let ms ← heap? hp; let prog ← prog.mapM stmt?
+      pure (execAns ms.length (exec ⟨toHeap ms, []⟩ prog))
+  | "c13.exec_old", [hp, .list prog] => do
+      let ms ← heap? hp; let prog ← prog.mapM stmt?
+      pure (execAns ms.length (execOld ⟨toHeap ms, []⟩ prog))
   | _, _ => none
 
 end TdVerif.Drive
